@@ -35,7 +35,7 @@ var modes = map[string]pkgMode{
 	"tkestack.io/kvass/pkg/coordinator":      {mapRange: true, clock: true, errgroup: true, wrand: true},
 	"tkestack.io/kvass/pkg/discovery":        {mapRange: true, clock: true, conc: true},
 	"tkestack.io/kvass/pkg/explore":          {mapRange: true, clock: true, errgroup: true, conc: true},
-	"tkestack.io/kvass/pkg/sidecar":          {mapRange: true},
+	"tkestack.io/kvass/pkg/sidecar":          {mapRange: true, conc: true},
 	"tkestack.io/kvass/pkg/shard":            {mapRange: true},
 	"tkestack.io/kvass/pkg/shard/kubernetes": {mapRange: true, clock: true},
 	"tkestack.io/kvass/pkg/target":           {mapRange: true},
